@@ -168,7 +168,7 @@ pub fn run_c17(a: &WorkerArgs) -> Out {
                 }));
             }
         }
-        if samples.len() < 2 && a.wid == 0 && (runs == 3 || runs == 40) {
+        if samples.len() < 2 && a.wid < 2 && runs >= 3 && out.decisions.len() > 20 {
             let hist = c17::render_history(&out.events);
             samples.push(json!({
                 "run_index": idx,
@@ -391,7 +391,7 @@ pub fn run_c12(a: &WorkerArgs) -> Out {
                         if a.trace_runs {
                             run_lines.push(format!("{idx} sweep {} {} {class}", s.calls, s.points));
                         }
-                        if samples.len() < 2 && a.wid == 0 && s.calls > 8 {
+                        if samples.len() < 2 && a.wid < 2 && s.calls > 8 {
                             samples.push(json!({"run_index": idx, "kind": "sweep", "job": job.to_json(),
                                 "calls_needed": s.calls, "limits_swept": s.points, "exhaustive": s.exhaustive,
                                 "limit_errors": s.limit_errors}));
@@ -420,7 +420,7 @@ pub fn run_c12(a: &WorkerArgs) -> Out {
                     if a.trace_runs {
                         run_lines.push(format!("{idx} cfg {h:016x} {class}"));
                     }
-                    if samples.len() < 3 && a.wid == 0 && cfg_runs == 2 {
+                    if samples.len() < 1 && cfg_runs >= 2 && a.wid < 8 {
                         samples.push(json!({"run_index": idx, "kind": "configuration world", "workload": w.to_json(),
                             "scheduler": format!("{spec:?}"),
                             "parses": run.parses.iter().map(|p| json!({"task": p.task, "job": p.job,
@@ -549,7 +549,7 @@ pub fn run_c15(a: &WorkerArgs) -> Out {
                         if a.trace_runs {
                             run_lines.push(format!("{idx} diff {} {class}", ds.pairs - pairs_before));
                         }
-                        if samples.len() < 2 && a.wid == 0 && (diffs == 5 || diffs == 50) {
+                        if samples.len() < 2 && a.wid < 2 && n % 7 == 3 {
                             let p = parsework::Prepared::new(&job).unwrap();
                             let (on, _, _) = c12::run_with(&p, 0, true);
                             samples.push(json!({"run_index": idx, "kind": "off/on differential", "job": job.to_json(),
@@ -582,7 +582,7 @@ pub fn run_c15(a: &WorkerArgs) -> Out {
                     if a.trace_runs {
                         run_lines.push(format!("{idx} cfg {h:016x} {class}"));
                     }
-                    if samples.len() < 3 && a.wid == 0 && cfg_runs == 2 {
+                    if samples.len() < 1 && cfg_runs >= 2 && a.wid < 8 {
                         samples.push(json!({"run_index": idx, "kind": "configuration world", "workload": w.to_json(),
                             "scheduler": format!("{spec:?}"),
                             "parses": run.parses.iter().map(|p| json!({"task": p.task, "job": p.job,
